@@ -155,6 +155,9 @@ func VF_NodeSign() {
 	// distinct strings "m"+<any byte> in whatever order the proposer lists them
 	ids := map[string][]string{}
 	idOf := func(bs string, k int) string {
+		if bs == "2" && vf.Param("sameids") != "" {
+			bs = "1" // the second batch re-uses the message ids of the first one (with other payloads and file names)
+		}
 		for len(ids[bs]) <= k {
 			j := len(ids[bs])
 			id := "b" + bs + "m" + strconv.Itoa(j)
@@ -170,6 +173,12 @@ func VF_NodeSign() {
 		}
 		return ids[bs][k]
 	}
+	fileOf := func(bs string, k int) string {
+		if vf.Param("sameids") != "" {
+			return "file" + strconv.Itoa(k) + "-of-batch-" + bs
+		}
+		return "file" + strconv.Itoa(k)
+	}
 	rid := "round"
 	runBatch := func(b int, order []int, lateFrom int, lateBatch string, latePayloads [][]byte) ([][]byte, bool) {
 		bs := strconv.Itoa(b)
@@ -179,7 +188,7 @@ func VF_NodeSign() {
 		for k := 0; k < ntasks; k++ {
 			p := vf.Bytes("b"+bs+".payload"+strconv.Itoa(k), 2)
 			payloads = append(payloads, p)
-			tasks = append(tasks, requests.SigningTask{MessageID: idOf(bs, k), File: "file" + strconv.Itoa(k), Payload: p})
+			tasks = append(tasks, requests.SigningTask{MessageID: idOf(bs, k), File: fileOf(bs, k), Payload: p})
 		}
 		start := requests.SigningBatchProposalStartRequest{BatchID: batchID, ParticipantId: 0, CreatedAt: vf.Time("b" + bs + ".created"), SigningTasks: tasks}
 		if err := e.node.ProcessMessage(vfSignedMessage("event_signing_start", 0, start)); err != nil {
@@ -208,7 +217,24 @@ func VF_NodeSign() {
 				post := vfTake(e, []string{rid})
 				vf.Assert("late-answer-noop", vf.And(lerr != nil, vfSame(pre, post, []string{rid})))
 			}
-			if err := answer(order[k], batchID, payloads, "b"+bs); err != nil {
+			ps := payloads
+			omit := vf.Param("omit") != "" && b == 1 && ntasks >= 2 && t < n
+			if omit && k == t-1 {
+				ps = payloads[:ntasks-1] // the t-th answer covers only some messages of the batch
+			}
+			pre := vfTake(e, []string{rid})
+			if err := answer(order[k], batchID, ps, "b"+bs); err != nil {
+				if omit && k == t-1 {
+					// one message has only t-1 shares: the t-th answer cannot complete the batch; it must leave no trace, and
+					// the next complete answer finishes the batch
+					vf.Assert("incomplete-set-noop", vfSame(pre, vfTake(e, []string{rid}), []string{rid}))
+					if err2 := answer(order[t], batchID, payloads, "b"+bs+"x"); err2 != nil {
+						vf.Record("answer-rejected", err2.Error())
+						vf.Assert("honest-answer-accepted:batch"+bs, false)
+						return nil, false
+					}
+					continue
+				}
 				vf.Record("answer-rejected", err.Error())
 				vf.Assert("honest-answer-accepted:batch"+bs, false)
 				return nil, false
@@ -239,10 +265,10 @@ func VF_NodeSign() {
 					vf.Assert("stored-is-recovered", vf.BytesEq(en.Signature, cr.expected(payloads[k])))
 					vf.Assert("stored-payload-is-proposed", vf.BytesEq(en.SrcPayload, payloads[k]))
 					vf.Assert("stored-entry-labels", en.MessageID == id && en.BatchID == batchID && en.DKGRoundID == rid)
-					vf.Assert("stored-file-is-proposed", en.File == "file"+strconv.Itoa(k))
+					vf.Assert("stored-file-is-proposed", en.File == fileOf(bs, k))
 				} else {
 					vf.Assert("proposal-entry-payload-is-proposed", vf.BytesEq(en.SrcPayload, payloads[k]))
-					vf.Assert("proposal-entry-file-is-proposed", en.File == "file"+strconv.Itoa(k))
+					vf.Assert("proposal-entry-file-is-proposed", en.File == fileOf(bs, k))
 				}
 			}
 			vf.Assert("all-batches-stored:batch"+bs, found)
